@@ -120,7 +120,8 @@ def newmark_part(run, np, ode):
         if coup == "full":
             for X, s_ in ((M, 0.1), (B, 0.4), (K, 40.0)):
                 q = rng.standard_normal((n, n))
-                q = s_ * (q + q.T) / 2
+                # every other "full" system is NOT symmetric (the recurrence is stated for general matrices; a transposed solve shows)
+                q = s_ * ((q + q.T) / 2 if (li // 3) % 2 == 0 else q * 0.7)
                 np.fill_diagonal(q, 0)
                 if X is M and mform in ("none", "vec"):
                     continue
@@ -155,7 +156,8 @@ def newmark_part(run, np, ode):
             barg2 = np.diag(Bf).copy() if coup == "diag" else Bf
             karg2 = np.diag(Kf).copy() if coup == "diag" else Kf
             nonlin2 = [(f_, np.vstack((T_, np.zeros((1, T_.shape[1])))), a_) for f_, T_, a_ in nonlin]
-        case = {"coupling": coup, "mass": mform, "rf": rf, "ic": ic, "nonlinear_terms": nnl, "nt": nt}
+        case = {"coupling": coup, "mass": mform, "rf": rf, "ic": ic, "nonlinear_terms": nnl, "nt": nt,
+                "symmetric": bool(coup != "full" or (li // 3) % 2 == 0)}
         run.case(json.dumps(case), part="newmark recurrence")
         try:
             if rf:
